@@ -1,6 +1,7 @@
 #!/bin/sh
 # usage: tools/try_refactor.sh <patch.diff>  - false-alarm test: a behaviour-preserving change applied to a scratch copy of /repo's
 # sources must leave every check at exit 0 (exit 1 = false alarm, exit 2 = the analysis does not understand the new shape).
+# ONLY="C04 C09" restricts the run to those checks (targeted replay after a rule change).
 # UNDECIDED_OK="C05 ..." lists checks for which exit 2 (never exit 1) is the documented answer for this patch.
 S=$(mktemp -d /tmp/w2c2-refactor.XXXXXX); trap 'rm -rf "$S"' EXIT
 if [ -n "$SNAP_DIR" ]; then SNAP="$SNAP_DIR"; else SNAP="$S/verif"; mkdir -p "$SNAP"; cp -r /verif/sa /verif/check /verif/known_findings.json /verif/properties.jsonl "$SNAP/"; ln -s /verif/.cache "$SNAP/.cache"; fi
@@ -9,7 +10,7 @@ mkdir -p "$S/repo"; (cd /repo && cp -r w2c2 wasi futex "$S/repo/")
 cp -al /verif/.cache "$S/cache" 2>/dev/null || mkdir -p "$S/cache"; export VERIF_CACHE_DIR="$S/cache"
 patch -s -p1 -d "$S/repo" < "$1" || { echo "patch does not apply"; exit 3; }
 bad=0
-for pid in C01 C02 C03 C04 C05 C06 C07 C08 C09 C10 C11 C12 C13 C14 C15 C16 C17 C18 C19 C20; do
+for pid in ${ONLY:-C01 C02 C03 C04 C05 C06 C07 C08 C09 C10 C11 C12 C13 C14 C15 C16 C17 C18 C19 C20}; do
   VERIF_REPO="$S/repo" VERIF_EVIDENCE_DIR="$S/ev" "$SNAP/check" "$pid" --tier quick > "$S/out" 2>&1; rc=$?
   if [ $rc -eq 2 ] && echo " $UNDECIDED_OK " | grep -q " $pid "; then echo "== $pid exit 2 (not decided - listed as expected for this patch)"; continue; fi
   if [ $rc -ne 0 ]; then bad=$((bad+1)); echo "== $pid exit $rc"; grep -v '^VIOLATION' "$S/out" | tail -4 | cut -c1-500; fi
